@@ -70,6 +70,9 @@ View(I, O, V, L, pos, h, sv) ==
 ----------------------------------------------------------------------------
 (* State *)
 VARIABLES hts, svs,     \* per original input: hash type and signature version of its signatures
+          ukinds,       \* per original input: where its unlocking data lives ("ss": scriptSig only, "p2sh":
+                        \* scriptSig ending in a redeem script, "p2sh_wit": scriptSig = push of a witness program
+                        \* + witness, "wit": witness only); <<>> switches the unlocking-data mutations off
           nops,         \* per original input: the spent script is executed directly (P2PK, P2PKH, bare
                         \* multisig), so "the same script followed by OP_NOP" is still the same puzzle
           sview,        \* per original input: the view captured when it was signed
@@ -78,21 +81,25 @@ VARIABLES hts, svs,     \* per original input: hash type and signature version o
           lastval,      \* the verdict the last Validate reported: <<pos, verdict>> or <<>>
           steps, inserts
 
-vars == <<hts, svs, nops, sview, orig, ver, lock, ins, outs, lastval, steps, inserts>>
+vars == <<hts, svs, nops, ukinds, sview, orig, ver, lock, ins, outs, lastval, steps, inserts>>
 cur == [ver |-> ver, lock |-> lock, ins |-> ins, outs |-> outs]
 
-NewIn(k) == [id |-> k, oph |-> 0, opi |-> 0, seq |-> 0, unl |-> k, known |-> TRUE, amt |-> 0, spk |-> k]
+\* (enc: 0 = the unlocking data is byte for byte what the signer wrote; otherwise the code of the
+\* re-encoding / addition applied to it, see "unlocking-data mutations" below)
+NewIn(k) == [id |-> k, oph |-> 0, opi |-> 0, seq |-> 0, unl |-> k, enc |-> 0, known |-> TRUE, amt |-> 0, spk |-> k]
 NewOut(j) == [amt |-> j, spk |-> j]
 
 \* a transaction with nin inputs and nout outputs, input k signed with hash type H[k] under S[k]
-InitWith(nin, nout, H, S, N) ==
+InitWithU(nin, nout, H, S, N, U) ==
     LET I == [k \in 1..nin |-> NewIn(k)]
         O == [j \in 1..nout |-> NewOut(j)]
-    IN /\ hts = H /\ svs = S /\ nops = N
+    IN /\ hts = H /\ svs = S /\ nops = N /\ ukinds = U
        /\ ver = 0 /\ lock = 0 /\ ins = I /\ outs = O
        /\ sview = [k \in 1..nin |-> View(I, O, 0, 0, k, H[k], S[k])]
        /\ orig = [ver |-> 0, lock |-> 0, ins |-> I, outs |-> O]
        /\ lastval = <<>> /\ steps = 0 /\ inserts = 0
+
+InitWith(nin, nout, H, S, N) == InitWithU(nin, nout, H, S, N, <<>>)
 
 ----------------------------------------------------------------------------
 (* The verdict: a function of the current fields (and of what was signed) only *)
@@ -106,6 +113,14 @@ Verdict(pos) ==
     /\ r.unl # 0                                 \* there is unlocking data ...
     /\ SamePuzzle(r)                             \* ... made for the puzzle this input now spends
     /\ View(ins, outs, ver, lock, pos, hts[r.unl], svs[r.unl]) = sview[r.unl]
+(* Unlocking-data mutations change nothing a signature commits to: what they do to validity is  *)
+(* decided by the script interpreter (push encodings, BIP141's rules for the scriptSig of witness  *)
+(* spends and for witnesses on non-witness inputs, SIGPUSHONLY under P2SH ...).  That rule book is   *)
+(* VerifyScript.tla (C03); this module only says WHEN the question is open: the commitments hold and *)
+(* the unlocking data is no longer as written.  Then the verdict is "vs" (else "T" / "F") - taken from  *)
+(* VerifyScript run on the concrete spend; a broken commitment is FALSE whatever the encoding (a     *)
+(* signature that does not verify is not rescued by re-encoding it).                                 *)
+Verdict3(pos) == IF ~Verdict(pos) THEN "F" ELSE IF ins[pos].enc = 0 THEN "T" ELSE "vs"
 Verdicts == [pos \in 1..Len(ins) |-> Verdict(pos)]
 \* the number of inputs that are not correctly solved.  An input referring to the null outpoint
 \* inside a transaction with other inputs is an ordinary (hopeless) input and counts.  A coinbase
@@ -127,6 +142,9 @@ Swap(s, p, q) == [s EXCEPT ![p] = s[q], ![q] = s[p]]
 
 \* a mutation as data: [m |-> name, a |-> position / first argument, b |-> value / second argument]
 Mut(m, a, b) == [m |-> m, a |-> a, b |-> b]
+UMuts == {"ss_pushdata", "wit_attach", "wit_append", "ss_prepend"}
+EncCode(x) == (CASE x.m = "ss_pushdata" -> 100 [] x.m = "wit_attach" -> 200 [] x.m = "wit_append" -> 300
+                 [] x.m = "ss_prepend" -> 400) + x.b
 Enabled(x) ==
     CASE x.m = "ver" -> x.a = 0 /\ x.b \in {0, 1} /\ x.b # ver
       [] x.m = "lock" -> x.a = 0 /\ x.b \in {0, 1} /\ x.b # lock
@@ -150,11 +168,26 @@ Enabled(x) ==
       [] x.m = "outs_remove" -> x.a \in OutPositions /\ x.b = 0
       [] x.m = "outs_swap" -> x.a \in OutPositions /\ x.b \in OutPositions /\ x.a < x.b
       [] x.m = "unl_swap" -> x.a \in Positions /\ x.b \in Positions /\ x.a < x.b   \* swap the unlocking data of two inputs
+      \* unlocking-data mutations (one per input at a time, on data the signer wrote for this input):
+      \*  ss_pushdata b: a push of the scriptSig re-encoded with OP_PUSHDATA1 / 2 / 4 - b = 1, 2, 4 the LAST
+      \*               push (redeem script, witness program, public key), b = 11, 12, 14 the first signature
+      \*  wit_attach b: a witness attached to an input that has none - b = 1: <01>, b = 2: two items shaped like
+      \*               a P2WPKH witness
+      \*  wit_append:   an empty item appended to the witness (to an empty witness: a witness of one empty item)
+      \*  ss_prepend b: OP_NOP (b = 1) / OP_1 (b = 2) put in front of the scriptSig
+      [] x.m \in UMuts ->
+             /\ ukinds # <<>> /\ x.a \in Positions /\ ins[x.a].enc = 0
+             /\ ins[x.a].unl # 0 /\ ins[x.a].unl = ins[x.a].id /\ svs[ins[x.a].unl] # "forkid"
+             /\ (LET u == ukinds[ins[x.a].unl] IN
+                 CASE x.m = "ss_pushdata" -> u # "wit" /\ x.b \in {1, 2, 4} \cup (IF u \in {"ss", "p2sh"} THEN {11, 12, 14} ELSE {})
+                   [] x.m = "wit_attach" -> u \in {"ss", "p2sh"} /\ x.b \in {1, 2}
+                   [] x.m = "wit_append" -> x.b = 0
+                   [] x.m = "ss_prepend" -> x.b \in {1, 2})
       [] x.m = "forget" -> x.a \in Positions /\ x.b = 0 /\ ins[x.a].known             \* the spent output becomes unknown
       [] x.m = "revert" -> x.a = 0 /\ x.b = 0 /\ cur # orig
       [] OTHER -> FALSE
 
-MutNames == {"ver", "lock", "oph", "opi", "seq", "spent_amt", "spent_spk", "out_amt", "out_spk", "ins_insert",
+MutNames == UMuts \cup {"ver", "lock", "oph", "opi", "seq", "spent_amt", "spent_spk", "out_amt", "out_spk", "ins_insert",
              "ins_remove", "ins_swap", "outs_insert", "outs_remove", "outs_swap", "unl_swap", "forget", "revert"}
 AllMuts == {x \in [m : MutNames, a : 0..5, b : 0..35] : Enabled(x)}
 
@@ -175,23 +208,25 @@ Apply(x) ==
          [] x.m = "outs_insert" -> outs' = InsertAt(outs, x.a, NewOut(x.b)) /\ UNCHANGED <<ver, lock, ins>>
          [] x.m = "outs_remove" -> outs' = Remove(outs, x.a) /\ UNCHANGED <<ver, lock, ins>>
          [] x.m = "outs_swap" -> outs' = Swap(outs, x.a, x.b) /\ UNCHANGED <<ver, lock, ins>>
-         [] x.m = "unl_swap" -> ins' = [ins EXCEPT ![x.a].unl = ins[x.b].unl, ![x.b].unl = ins[x.a].unl]
+         [] x.m \in UMuts -> SetIn(x.a, "enc", EncCode(x)) /\ UNCHANGED <<ver, lock, outs>>
+         [] x.m = "unl_swap" -> ins' = [ins EXCEPT ![x.a].unl = ins[x.b].unl, ![x.b].unl = ins[x.a].unl,
+                                                    ![x.a].enc = ins[x.b].enc, ![x.b].enc = ins[x.a].enc]
                                 /\ UNCHANGED <<ver, lock, outs>>
          [] x.m = "forget" -> SetIn(x.a, "known", FALSE) /\ UNCHANGED <<ver, lock, outs>>
          [] x.m = "revert" -> ver' = orig.ver /\ lock' = orig.lock /\ ins' = orig.ins /\ outs' = orig.outs
     /\ inserts' = IF x.m \in {"ins_insert", "outs_insert"} THEN inserts + 1 ELSE IF x.m = "revert" THEN 0 ELSE inserts
     /\ lastval' = <<>>
     /\ steps' = steps + 1
-    /\ UNCHANGED <<hts, svs, nops, sview, orig>>
+    /\ UNCHANGED <<hts, svs, nops, ukinds, sview, orig>>
 
 Mutate(x) == steps < MaxSteps /\ Apply(x)
 
 \* validating input pos: reports the verdict; the transaction is not changed by it
 Validate(pos) ==
     /\ steps < MaxSteps /\ pos \in Positions
-    /\ lastval' = <<pos, Verdict(pos)>>
+    /\ lastval' = <<pos, Verdict3(pos)>>
     /\ steps' = steps + 1
-    /\ UNCHANGED <<hts, svs, nops, sview, orig, ver, lock, ins, outs, inserts>>
+    /\ UNCHANGED <<hts, svs, nops, ukinds, sview, orig, ver, lock, ins, outs, inserts>>
 
 Next == (\E x \in AllMuts : Mutate(x)) \/ (\E pos \in Positions : Validate(pos))
 
@@ -200,7 +235,7 @@ Next == (\E x \in AllMuts : Mutate(x)) \/ (\E pos \in Positions : Validate(pos))
 \* just signed: everything validates
 FreshlySignedValid == (cur = orig) => \A pos \in Positions : Verdict(pos)
 \* what Validate reports is the verdict of the current fields: no history enters
-ReportedIsCurrent == lastval # <<>> => lastval[2] = Verdict(lastval[1])
+ReportedIsCurrent == lastval # <<>> => lastval[2] = Verdict3(lastval[1])
 \* unknown spent output: never valid
 UnknownNeverValid == \A pos \in Positions : ~ins[pos].known => ~Verdict(pos)
 
@@ -233,7 +268,7 @@ ChangedFields ==
           [] x.m = "out_spk" -> x.a \in OutPositions /\ outs[x.a].spk # orig.outs[x.a].spk
           [] OTHER -> FALSE}
 SameStructure == /\ Len(ins) = Len(orig.ins) /\ Len(outs) = Len(orig.outs)
-                 /\ \A p \in Positions : ins[p].id = p /\ ins[p].unl = p /\ ins[p].known
+                 /\ \A p \in Positions : ins[p].id = p /\ ins[p].unl = p /\ ins[p].known /\ ins[p].enc = 0
 \* (several changed fields: invalid iff at least one of them is committed)
 CommitmentTable ==
     SameStructure =>
